@@ -280,7 +280,8 @@ def work_runtime(task):
         for n in range(1, 9):
             for k in range(1, n + 1):
                 items = ", ".join(str(i) for i in range(1, n + 1))
-                for bad in ("drop drop", "swap", "rot", "over", "drop dup"):
+                # (a comparison word needs two values like any other binary word: on a stack of one it fails, it does not answer)
+                for bad in ("drop drop", "swap", "rot", "over", "drop dup", "?gt", "!eq", "?lt", "?le", "?ne", "?ge", "?eq", "!lt", "!gt"):
                     body = "(%s) if ( == %d) then (%s) else ()" % (items, k, bad)
                     # ... at top level, and where the failing expression is pulled lazily from inside another construct:
                     # a format splice, the body of a let, a branch of an alternation (results come out one by one, the
